@@ -105,6 +105,13 @@ def _arms(ctx, qual):
             continue
         if lab in arms:
             raise AnalysisError('%s: two branches for %s' % (qual, lab))
+        # the arm is judged by what stands in it: a call of a helper that the normal form could not expand there hides the
+        # comparisons and reports the rule looks for - no verdict
+        from .. import absint
+        for st in body:
+            for c in A.calls_in(st):
+                if A.call_target(c)[1] in absint.OPAQUE_NAMES:
+                    raise AnalysisError('%s[%s]: the work is done in %s(), a helper that could not be expanded in place' % (qual, lab, A.call_target(c)[1]))
         arms[lab] = Arm(lab, body, extra, node)
     return fn, arms
 
@@ -553,10 +560,27 @@ def r7_header_semantics(ctx):
                        'self.hl_stack': (), 'self.st_ids': ('s0', 's0' if dup else 's9')}))
     CASES.append(('NM1', {}, None, {'self.seg_count': 8, 'self.loops': base['self.loops'], 'self.gs_count': 2, 'self.st_count': 3}))
     CASES.append(('SE', {}, None, {'self.seg_count': 7, 'self.loops': base['self.loops']}))
+    # LS / LE bracket a loop inside the set: ordinary segments for the count (once each), not envelopes
+    for sid_ in ('LS', 'LE', 'REF', 'CLM'):
+        CASES.append((sid_, {sid_ + '01': '2120'}, None, {'self.seg_count': 8, 'self.loops': base['self.loops'], 'self.cur_line': 11}))
+    # HL: own running number, parent must be open; the stack of open levels is cut back to the parent
+    CASES.append(('HL', {'HL01': '3', 'HL02': '2'}, None, {'self.hl_count': 3, 'self.hl_stack': (1, 2, 3), 'self.seg_count': 8}))
+    CASES.append(('HL', {'HL01': '4', 'HL02': '2'}, ('_seg_error', 'HL1'), {'self.hl_count': 3, 'self.hl_stack': (1, 2, 3), 'self.seg_count': 8}))
+    CASES.append(('HL', {'HL01': 'x', 'HL02': '2'}, ('_seg_error', 'HL1'), {'self.hl_count': 3, 'self.hl_stack': (1, 2, 3)}))
+    CASES.append(('HL', {'HL01': '3', 'HL02': '1'}, None, {'self.hl_count': 3, 'self.hl_stack': (1, 3)}))
+    CASES.append(('HL', {'HL01': '3', 'HL02': '9'}, ('_seg_error', 'HL2'), {'self.hl_count': 3, 'self.hl_stack': (3,)}))
+    CASES.append(('HL', {'HL01': '3', 'HL02': ''}, None, {'self.hl_count': 3, 'self.hl_stack': (1, 2, 3)}))
+    # LX numbering is checked only when the 837 option is on
+    CASES.append(('LX', {'LX01': '2', '@lx': True}, None, {'self.lx_count': 2, 'self.seg_count': 8}))
+    CASES.append(('LX', {'LX01': '3', '@lx': True}, ('_seg_error', 'LX'), {'self.lx_count': 2, 'self.seg_count': 8}))
+    CASES.append(('LX', {'LX01': '3', '@lx': False}, None, {'self.lx_count': 1, 'self.seg_count': 8}))
+    CASES.append(('CLM', {'@lx': True}, None, {'self.lx_count': 0, 'self.seg_count': 8}))
+    CASES.append(('CLM', {'@lx': False}, None, {'self.lx_count': 1, 'self.seg_count': 8}))
     bad = []
     for sid, vals, want_err, want_state in CASES:
         env = dict(base)
-        env['seg_data'] = _SegM(sid, vals)
+        env['seg_data'] = _SegM(sid, {k: v for k, v in vals.items() if not k.startswith('@')})
+        env['self.check_837_lx'] = vals.get('@lx', False)
 
         def key(c):
             r, m = A.call_target(c)
@@ -574,6 +598,62 @@ def r7_header_semantics(ctx):
                                                                   ''.join('; %s becomes %r, expected %r' % d for d in diffs[:2])))
     yield Ob('x12file:X12Base._parse_segment headers push, report reuse and start the counters below; other segments count once', not bad, ctx.floc(fn),
              '' if not bad else bad[0], note='%d cases' % len(CASES))
+
+
+def r8_lx_option_follows_map(ctx):
+    """the 837 service-line check (LX01 against the reader's own count) is an option of the reader that the driver
+    switches with the map: wherever the driver loads a map, the statements that follow in the same block leave
+    `check_837_lx` true exactly when the map loaded is an 837 - whatever it was before (a flag that is only ever set
+    makes the LX of a later 835 group an envelope error).  Decided by constant propagation over map id x previous value
+    on the statements after each load."""
+    from ..absint import explore
+    drivers = (('x12n_document', 'x12n_document'),)
+    n = 0
+    for mod, q in drivers:
+        for fn in ctx.region(mod, q):
+            for st in ast.walk(fn):
+                if not (isinstance(st, ast.Assign) and isinstance(st.value, ast.Call) and A.call_target(st.value)[1] == 'load_map_file'
+                        and len(st.targets) == 1 and isinstance(st.targets[0], ast.Name)):
+                    continue
+                var = st.targets[0].id
+                owner = A.parent(st)
+                blk = None
+                for field in ('body', 'orelse', 'finalbody'):
+                    b_ = getattr(owner, field, None)
+                    if isinstance(b_, list) and st in b_:
+                        blk = b_
+                if blk is None:
+                    raise AnalysisError('x12n_document: the block of `%s` was not found' % norm(st))
+                rest = blk[blk.index(st) + 1:]
+                uses_flag = [x for x in ast.walk(ast.Module(body=rest, type_ignores=[])) if isinstance(x, ast.Attribute) and x.attr == 'check_837_lx'
+                             and isinstance(x.ctx, ast.Store)]
+                if A.enclosing(st, (ast.For, ast.While)) is None:
+                    continue          # the control map, loaded before the first segment is read: no document map yet
+                n += 1
+                recv = path_of(uses_flag[0].value) if uses_flag else 'src'
+                synth = ast.parse('def _after_load():\n    pass').body[0]
+                synth.body = list(rest) or synth.body
+                ast.fix_missing_locations(synth)
+                from ..cfg import CFG
+                g = CFG(synth)
+                bad = []
+                for mid in ('837', '835', '270'):
+                    for prior in (True, False):
+                        fin = []
+
+                        def on_node(nd, env, g=g):
+                            if nd is g.exit:
+                                fin.append(env.get(recv + '.check_837_lx', 'unknown'))
+                        explore(g, {var: A.Model('map', id=mid), recv + '.check_837_lx': prior}, on_node=on_node)
+                        want = mid == '837'
+                        for v in fin:
+                            if v is not want:
+                                bad.append('after loading a %s map with the option %s before, the option is %s' % (mid, 'on' if prior else 'off',
+                                                                                                              {True: 'on', False: 'off'}.get(v, 'undetermined')))
+                yield Ob('%s:%s the 837 LX option follows the map loaded (%s)' % (mod, q, 'line %d' % st.lineno), not bad, ctx.floc(fn, st),
+                         '' if not bad else bad[0] + ': LX segments of that group are checked against the wrong rule')
+    if n == 0:
+        raise AnalysisError('no map load followed by a check_837_lx assignment was found in the driver')
 
 
 def r6_trailer_semantics(ctx):
@@ -660,6 +740,7 @@ RULES = [
     Rule('C04.R2', 'top-of-stack reads/deletes/pops of emptiable lists hold NonEmpty (typestate on the CFG)', r2_stack_safety, floor=13),
     Rule('C04.R3', '_int is total over str|None; no bare int() on run-time values in x12file', r3_int_total, floor=1),
     Rule('C04.R7', 'header bookkeeping decided by constant propagation: push, control-number reuse, counters of the level below', r7_header_semantics, floor=1),
+    Rule('C04.R8', 'the reader option check_837_lx is switched with every map load, both ways (constant propagation)', r8_lx_option_follows_map, floor=2),
     Rule('C04.R6', 'trailer checks decided by constant propagation: stack shape x control number x declared count', r6_trailer_semantics, floor=2),
     Rule('C04.R5', 'shared with C01.R3/R5: no segment is damaged or lost at a buffer boundary', r5_shared_tokenizer, floor=6),
     Rule('C04.R4', 'pending reader errors are only removed by pop_errors, never per segment', r4_pending_errors_kept, floor=2),
